@@ -239,8 +239,12 @@ def check_plain(ctx: Ctx, case) -> bool:
         ctx.fail(case, f"mutation: {api} on a plain tensor changed its input")
         ok = False
     want = seq_fold(before, dim, op, left)
+    if y.dtype != before.dtype:
+        ctx.fail(case, f"dtype: {api} of a plain {before.dtype} tensor returns {y.dtype} (the ordered product under the tensor's own "
+                       f"{'@' if mat else '*'} keeps the dtype; narrow integers wrap)")
+        ok = False
     if y.shape != want.shape or not torch.equal(y, want):
-        ctx.fail(case, f"fold: {api}(plain tensor, left={left}) != sequential fold with {'@' if mat else '*'} (L={L}, dim={dim})")
+        ctx.fail(case, f"fold: {api}(plain {case['dtype']} tensor, left={left}) != sequential fold with {'@' if mat else '*'} (L={L}, dim={dim})")
         ok = False
     return ok
 
@@ -587,6 +591,50 @@ def run_overlap(ctx: Ctx):
             ctx.fail(case, "atomic: cumops_ on an overlapping view raised but had already changed the storage")
 
 
+def run_long(ctx: Ctx):
+    """(19) long scans: lengths around powers of two far beyond the exhaustive schedule range (block-wise evaluation with
+    an off-by-one / dropped remainder shows only at the very end); exact monoid, pure-python sequential oracle"""
+    p = 65521
+    Ls = [2 ** 14 + 1, 2 ** 16 + 1, 2 ** 16] if ctx.quick else [2 ** 14 + 1, 2 ** 16 - 1, 2 ** 16 + 1, 2 ** 18 + 1, 2 ** 18 + 37, 2 ** 20 + 1]
+    for L in Ls:
+        for api, left in (("cumops", False), ("cumops_", True), ("cumprod", True), ("cummul", False)):
+            case = {"kind": "long", "L": L, "api": api, "left": left}
+            g = torch.Generator().manual_seed(L)
+            x = torch.randint(1, p, (L, 2, 2), generator=g, dtype=torch.int64)
+            mm = lambda a, b: (a @ b) % p
+            try:
+                if api.startswith("cumops"):
+                    ops = (lambda a, b: mm(b, a)) if left else mm
+                    y = getattr(pp(), api)(x.clone(), 0, ops)
+                    had = False
+                else:
+                    y = scan_mod(getattr(pp(), api), x, p, left)
+                    had = api == "cummul"
+            except Exception as e:
+                ctx.fail(case, f"raises: {api} raised for L={L}: {type(e).__name__}: {str(e)[:100]}")
+                continue
+            # sequential oracle on python ints (last 64 positions compared, plus positions around 2^k block boundaries)
+            rows = x.reshape(L, 4).tolist()
+            acc = rows[0]
+            probe = set(range(L - 64, L)) | {2 ** k + d for k in range(10, 21) for d in (-1, 0, 1) if 0 <= 2 ** k + d < L}
+            bad = None
+            for j in range(1, L):
+                b = rows[j]
+                if had:
+                    acc = [(acc[i] * b[i]) % p for i in range(4)]
+                else:
+                    a = (b, acc) if left else (acc, b)
+                    (a0, a1, a2, a3), (b0, b1, b2, b3) = a
+                    acc = [(a0 * b0 + a1 * b2) % p, (a0 * b1 + a1 * b3) % p, (a2 * b0 + a3 * b2) % p, (a2 * b1 + a3 * b3) % p]
+                if j in probe and y[j].reshape(4).tolist() != acc:
+                    bad = j
+                    break
+            if bad is not None:
+                ctx.fail(case, f"fold: {api}(left={left}) position {bad} of a scan of length {L} is not the ordered product of the first {bad + 1} items")
+            ctx.note_case(("long", L, api, left), True)
+            ctx.count("long")
+
+
 # ----------------------------------------------------------------------------- grad-mode / call-order stream
 
 MODE_ORDERS = [("inference", "leaf", "plain", "nonleaf_"), ("no_grad", "nonleaf_", "inference", "leaf"),
@@ -751,18 +799,23 @@ def run(ctx: Ctx):
         mcases.append(gen_mem_case(rng, ctx.quick))
     run_mem(ctx, mcases)
     run_overlap(ctx)
+    run_long(ctx)
     # plain tensors through every wrapper (deterministic corpus: every api x order x a few lengths/shapes/dtypes)
     pcases = []
     for api in ("cumprod", "cumprod_", "cummul", "cummul_"):
         for left in (False, True):
             for L in (1, 2, 3, 4, 7, 16, 33):
-                for pre, post, dtn in (([], [], "int64"), ([2], [], "float64"), ([], [3], "int64"), ([3], [2], "float32")):
+                for pre, post, dtn in (([], [], "int64"), ([2], [], "float64"), ([], [3], "int64"), ([3], [2], "float32"),
+                                       ([], [], "int32"), ([2], [], "int16"), ([], [2], "int8"), ([], [], "uint8"), ([], [], "bool"),
+                                       ([], [], "float16"), ([], [], "bfloat16"), ([], [], "complex64")):
+                    if dtn in ("bool", "float16", "bfloat16") and "prod" in api:
+                        continue            # torch has no `@` kernel for these dtypes on CPU
                     pcases.append({"kind": "plain", "api": api, "left": left, "L": L, "shape_pre": pre, "shape_post": post,
                                    "dtype": dtn, "data_seed": 11 * L + len(pre)})
     for _ in range(ctx.pick(40, 400)):
         pcases.append({"kind": "plain", "api": rng.choice(["cumprod", "cumprod_", "cummul", "cummul_"]), "left": rng.random() < 0.5,
                        "L": rng.randint(1, 40), "shape_pre": small_shape(rng, 2), "shape_post": small_shape(rng, 1),
-                       "dtype": rng.choice(["int64", "float64"]), "data_seed": rng.randrange(1 << 30)})
+                       "dtype": rng.choice(["int64", "float64", "int32", "int16", "int8", "uint8"]), "data_seed": rng.randrange(1 << 30)})
     run_plain(ctx, pcases)
     run_api_model(ctx)
     # lie
@@ -818,6 +871,8 @@ def replay(ctx: Ctx, case) -> bool:
         run_mem(ctx, [c])
     elif kind == "modes":
         check_modes(ctx, c)
+    elif kind == "long":
+        run_long(ctx)
     for f in ctx.failures[n0:]:
         print("  fails:", f["what"])
     for d in ctx.disagreements:
